@@ -1905,11 +1905,19 @@ class QueryBuilder(Selectable, Term):  # type:ignore[misc]
         clauses = []
         selected_aliases = {s.alias for s in self._selects}
         for field, directionality in self._orderbys:
-            term = (
-                format_identifier(field.alias, ctx.alias_quote_char or ctx.quote_char)
-                if ctx.orderby_alias and field.alias and field.alias in selected_aliases
-                else field.get_sql(ctx)
-            )
+            if ctx.orderby_alias and field.alias and field.alias in selected_aliases:
+                term = format_identifier(field.alias, ctx.alias_quote_char or ctx.quote_char)
+            elif (
+                isinstance(field, Field)
+                and not field.alias
+                and field.table is not None
+                and field.name in selected_aliases
+            ):
+                # a column whose name another select item uses as its alias: written bare, ORDER BY would sort by that
+                # item instead - the column keeps its source's name
+                term = field.get_sql(ctx.copy(with_namespace=True))
+            else:
+                term = field.get_sql(ctx)
 
             clauses.append(
                 "{term} {orient}".format(term=term, orient=directionality.value)
